@@ -53,12 +53,19 @@ pub fn run(case: &Value, ctx: &Ctx) -> Outcome {
                 ("real", (0..n0).map(|_| rng.gen::<f64>() * 100.0).collect()),
                 ("signed", (0..n0).map(|_| rng.gen::<f64>() * 2.0 - 1.0).collect()),
                 ("huge", (0..n0).map(|p| if p % 2 == 0 { 1e300 } else { 3e-300 }).collect()),
+                // every entry far below machine epsilon (a rescaled spectrum); compared purely relatively
+                ("tiny", (0..n0).map(|_| (1.0 + rng.gen::<f64>() * 100.0) * 2f64.powi(-60)).collect()),
             ];
             for (name, x) in &xs {
                 let want = sym.eval(x, 0.0);
                 match project(x, &from, &to) {
                     Ok(Ok((_, gv))) => {
-                        out.check(vec_close(&gv, &want, 1e-9), || format!("project/grid/linear-{name}"), || json!({"x": x, "got": gv, "want": want}));
+                        let ok = if *name == "tiny" {
+                            gv.len() == want.len() && gv.iter().zip(&want).all(|(g, w)| g == w || (g - w).abs() <= 1e-9 * g.abs().max(w.abs()))
+                        } else {
+                            vec_close(&gv, &want, 1e-9)
+                        };
+                        out.check(ok, || format!("project/grid/linear-{name}"), || json!({"x": x, "got": gv, "want": want}));
                         out.check(gv.iter().all(|v| v.is_finite()), || "project/grid/non-finite".into(), || json!({"x": x, "got": gv.iter().map(|v| v.to_string()).collect::<Vec<_>>()}));
                         if *name == "real" {
                             out.check(gv.iter().all(|v| *v >= 0.0), || "project/grid/negative".into(), || json!({"got": gv}));
